@@ -1,5 +1,9 @@
 //@ props: C14
 //@ target: src/ops/future.rs
+//@ thorough-subst: [u8; 2] ==> [u8; 4]
+//@ thorough-subst: kani::assume(n <= 2) ==> kani::assume(n <= 4)
+//@ thorough-subst: kani::unwind(5) ==> kani::unwind(7)
+//@ thorough-note: at most 4 items
 // to_future, consuming side — src/ops/future.rs ObservableFuture::poll over the REAL channel
 use crate::verif_probe::*;
 use std::future::Future;
